@@ -557,6 +557,9 @@ def register_pretty(type=None, predicate=None):
                 _DEFERRED_DISPATCH_BY_NAME[type] = fn
             else:
                 pretty_dispatch.register(type, partial(_run_pretty, fn))
+                # The latest registration wins: drop a printer registered
+                # earlier for this class by name and not used yet.
+                _DEFERRED_DISPATCH_BY_NAME.pop(get_deferred_key(type), None)
         else:
             assert callable(predicate)
             _PREDICATE_REGISTRY.append((predicate, fn))
@@ -576,11 +579,10 @@ def is_registered(
             'register_deferred may not be True when check_deferred is False'
         )
 
-    if type in pretty_dispatch.registry:
-        return True
-
     if check_deferred:
-        # Check deferred printers for the type exactly.
+        # Check deferred printers for the type exactly. This comes before
+        # the registry lookup: a printer registered by name after the type
+        # was first printed must replace the one registered back then.
         deferred_key = get_deferred_key(type)
         deferred_dispatch = _DEFERRED_DISPATCH_BY_NAME.get(deferred_key)
         if deferred_dispatch is not None:
@@ -591,6 +593,9 @@ def is_registered(
                 register_pretty(type)(deferred_dispatch)
                 _DEFERRED_DISPATCH_BY_NAME.pop(deferred_key, None)
             return True
+
+    if type in pretty_dispatch.registry:
+        return True
 
     if not check_superclasses:
         return False
